@@ -40,7 +40,30 @@ func main() {
 		runSim(os.Args[2])
 		return
 	}
-	Main(map[string]PropFunc{"C05": runC05})
+	Main(map[string]PropFunc{"C05": runC05, "C10": runC10, "C14": runC14})
+}
+
+// C10 (Linux share): only the resume streams, with oracle predicates of their own.
+var c10Mode bool
+
+func runC10(ctx *Ctx) *Result {
+	c10Mode = true
+	return runC05(ctx)
+}
+
+// C14 (Linux share): only the route step-safety stream.
+var c14Mode bool
+
+func runC14(ctx *Ctx) *Result {
+	c14Mode = true
+	return runC05(ctx)
+}
+
+func predName(p string) string {
+	if c10Mode {
+		return "c10_" + p
+	}
+	return p
 }
 
 // ---------------------------------------------------------------- simulated Linux host (device path)
@@ -49,7 +72,9 @@ type simState struct {
 	Routes string `json:"routes"`  // output of `ip route show`
 	Ipt    string `json:"ipt"`     // output of `iptables-save`
 	FailAt int    `json:"fail_at"` // the session dies when the `ip route add|del` command with this index arrives (-1: never)
-	Log    string `json:"log"`     // accepted `ip route` commands, one per line
+	Log    string `json:"log"`     // accepted changing commands (`ip route …`, chmod, the restore file, mv), one per line
+	// the session dies when this arrives: which | chmod | exec | mv | echo-after-chmod | echo-after-exec | echo-after-mv
+	DieAt string `json:"die_at"`
 }
 
 // runSim speaks the dialogue pkg/linux expects over stdin/stdout (no pty: the host echoes itself).
@@ -62,6 +87,14 @@ func runSim(stateFile string) {
 	out.WriteString("Linux router 5.10.0\r\nroot@router:~# ")
 	out.Flush()
 	nroute := 0
+	last := ""
+	logCmd := func(l string) {
+		if st.Log != "" {
+			f, _ := os.OpenFile(st.Log, os.O_APPEND|os.O_CREATE|os.O_WRONLY, 0644)
+			f.WriteString(l + "\n")
+			f.Close()
+		}
+	}
 	// pkg/linux never closes the session (CloseConnection is empty; drc normally just exits), and the
 	// harness runs drc in-process: leave by ourselves when the dialogue is over, or the pty leaks
 	idle := time.AfterFunc(20*time.Second, func() { os.Exit(0) })
@@ -76,6 +109,28 @@ func runSim(stateFile string) {
 			return
 		}
 		resp := ""
+		kind := ""
+		switch {
+		case line == "which iptables-restore":
+			kind = "which"
+		case strings.HasPrefix(line, "chmod "):
+			kind = "chmod"
+		case line == "/etc/network/packet-filter.new":
+			kind = "exec"
+		case strings.HasPrefix(line, "mv -f "):
+			kind = "mv"
+		}
+		if st.DieAt != "" && (st.DieAt == kind || (line == "echo $?" && st.DieAt == "echo-after-"+last)) {
+			return // the session is interrupted: this command is not executed
+		}
+		if kind == "chmod" || kind == "exec" || kind == "mv" {
+			logCmd(line)
+		}
+		if kind != "" {
+			last = kind
+		} else if line != "echo $?" {
+			last = ""
+		}
 		switch {
 		case line == "uname -r":
 			resp = "5.10.0-verif\n"
@@ -98,10 +153,8 @@ func runSim(stateFile string) {
 				// the session is interrupted here: this command and everything behind it (also the second
 				// half of a packet) is not executed
 				return
-			} else if st.Log != "" {
-				f, _ := os.OpenFile(st.Log, os.O_APPEND|os.O_CREATE|os.O_WRONLY, 0644)
-				f.WriteString(line + "\n")
-				f.Close()
+			} else {
+				logCmd(line)
 			}
 			nroute++
 		}
@@ -113,6 +166,10 @@ func runSim(stateFile string) {
 // deviceRun runs the real `drc [-C] -q -L LOGDIR CODE/router` against the simulated host.
 // Returns the run, the compare log (ShowChanges) if written, and the `ip route` commands the host accepted.
 func (r *runner) deviceRun(compare bool, routesOut, iptOut, spoc string, failAt int) (implOut, string, []string) {
+	return r.deviceRun2(compare, routesOut, iptOut, spoc, failAt, "")
+}
+
+func (r *runner) deviceRun2(compare bool, routesOut, iptOut, spoc string, failAt int, dieAt string) (implOut, string, []string) {
 	r.n++
 	d := filepath.Join(r.dir, fmt.Sprintf("d%d", r.n))
 	os.MkdirAll(filepath.Join(d, "code"), 0755)
@@ -127,7 +184,7 @@ func (r *runner) deviceRun(compare bool, routesOut, iptOut, spoc string, failAt 
 	os.WriteFile(code+".info", []byte(`{"generated_by":"verif","model":"Linux","name_list":["router"],"ip_list":["10.1.13.33"]}`), 0644)
 	logF := filepath.Join(d, "cmds")
 	stF := filepath.Join(d, "state.json")
-	os.WriteFile(stF, []byte(JSONStr(simState{Routes: routesOut, Ipt: iptOut, FailAt: failAt, Log: logF})), 0644)
+	os.WriteFile(stF, []byte(JSONStr(simState{Routes: routesOut, Ipt: iptOut, FailAt: failAt, Log: logF, DieAt: dieAt})), 0644)
 	exe, _ := os.Executable()
 	oldHome := os.Getenv("HOME")
 	os.Setenv("HOME", d)
@@ -192,6 +249,7 @@ type c05Case struct {
 	// device path cases
 	OddLine string `json:"odd_line,omitempty"` // an extra line in the device's iptables-save output
 	FailAt  int    `json:"fail_at,omitempty"`  // device-resume: the session dies when this `ip route` command arrives
+	Cut     string `json:"cut,omitempty"`      // ipt-resume: the session dies at which | chmod | exec | mv | echo-after-…
 }
 
 func encRS(rs []aTable) string {
@@ -345,6 +403,10 @@ var (
 		"10.8.0.0/16 via 10.10.1.1 dev eth0 proto boot",
 	}
 )
+
+// destinations that share a network address with different prefix lengths, nested prefixes, halves, default
+var nestPool = []string{"10.1.0.0/16", "10.1.0.0/24", "10.1.0.0/30", "10.1.0.0", "10.1.7.0/24", "10.1.0.0/17", "10.1.128.0/17",
+	"10.0.0.0/8", "10.0.0.0/16", "0.0.0.0/0", "0.0.0.0/1", "128.0.0.0/1", "10.1.7.7", "10.1.7.0/28"}
 
 func splitDst(d string) (string, int) {
 	ip, l, found := strings.Cut(d, "/")
@@ -854,6 +916,7 @@ func mutateRS(rng *RNG, tgt []aTable, res *Result, allowExtraTable bool) []aTabl
 }
 
 type routeGenOpts struct {
+	nest                bool // destinations from nestPool
 	multiHop, dupTarget bool
 	max                 int
 }
@@ -866,9 +929,13 @@ func genRoutes(rng *RNG, o routeGenOpts, res *Result) (dev []devRoute, tgt []str
 	}
 	seenDev := map[key]bool{}
 	seenDst := map[string]bool{}
+	pool := ipPool
+	if o.nest {
+		pool = nestPool
+	}
 	n := rng.Intn(o.max + 1)
 	for i := 0; i < n; i++ {
-		ip, plen := splitDst(Pick(rng, ipPool))
+		ip, plen := splitDst(Pick(rng, pool))
 		k := key{ip, plen, Pick(rng, hopPool)}
 		d := ip + "/" + strconv.Itoa(plen)
 		if seenDev[k] || (seenDst[d] && !o.multiHop) {
@@ -906,7 +973,7 @@ func genRoutes(rng *RNG, o routeGenOpts, res *Result) (dev []devRoute, tgt []str
 	}
 	m := rng.Intn(4)
 	for i := 0; i < m; i++ {
-		ip, plen := splitDst(Pick(rng, ipPool))
+		ip, plen := splitDst(Pick(rng, pool))
 		add(ip, plen, Pick(rng, hopPool))
 	}
 	if o.dupTarget && len(tgt) > 0 {
@@ -1047,7 +1114,11 @@ func runC05(ctx *Ctx) *Result {
 				if pred == "iptables_change_reported_for_equivalent_device" {
 					pred = spellingClass(pred, why, script)
 				}
-				res.Fail(map[string]any{"pred": pred}, "executing the script printed by the real code on the device semantics: "+pred+" "+o[2], c)
+				sig := map[string]any{"pred": pred}
+				if pred == "route_destination_uncovered_during_change" {
+					sig["backend"], sig["level"] = "linux", o[2]
+				}
+				res.Fail(sig, "executing the script printed by the real code on the device semantics: "+pred+" "+o[2], c)
 			}
 		}
 		if failed {
@@ -1278,7 +1349,7 @@ func runC05(ctx *Ctx) *Result {
 		tgt := strings.Join(c.TgtRoutes, ls)
 		o1 := strings.Split(drv.Ask(strings.Join([]string{"rexec", encRoutes(c.DevRoutes), strings.Join(cmds1, ls), tgt}, fs)), fs)
 		if o1[0] != "ok" || len(o1) != 4 {
-			res.Fail(map[string]any{"pred": "resume_prefix_command_fails"}, "a prefix of the route script fails on the strict kernel table", c)
+			res.Fail(map[string]any{"pred": predName("resume_prefix_command_fails")}, "a prefix of the route script fails on the strict kernel table", c)
 			return
 		}
 		routes2 := ""
@@ -1296,11 +1367,149 @@ func runC05(ctx *Ctx) *Result {
 		o2 := strings.Split(drv.Ask(strings.Join([]string{"rexec", o1[3], strings.Join(cmds2, ls), tgt}, fs)), fs)
 		switch {
 		case o2[0] != "ok":
-			res.Fail(map[string]any{"pred": "resume_command_fails"}, fmt.Sprintf("after an approve interrupted behind %d commands the second approve sends a command the kernel rejects", k), c)
+			res.Fail(map[string]any{"pred": predName("resume_command_fails")}, fmt.Sprintf("after an approve interrupted behind %d commands the second approve sends a command the kernel rejects", k), c)
 		case o2[2] != "1":
-			res.Fail(map[string]any{"pred": "resume_not_converged"}, fmt.Sprintf("after an approve interrupted behind %d commands the second approve does not end in the target's routes", k), c)
+			res.Fail(map[string]any{"pred": predName("resume_not_converged")}, fmt.Sprintf("after an approve interrupted behind %d commands the second approve does not end in the target's routes", k), c)
 		default:
 			res.Count("resume:converged")
+		}
+	}
+	// splitDev: device text of the specification (prefixed route lines + iptables-save) → the two outputs
+	splitDev := func(dev string) (string, string) {
+		var rl, il []string
+		for _, l := range strings.Split(strings.TrimSuffix(dev, "\n"), "\n") {
+			if strings.HasPrefix(l, "ip route add ") {
+				rl = append(rl, strings.TrimPrefix(l, "ip route add "))
+			} else if l != "" {
+				il = append(il, l)
+			}
+		}
+		r2, i2 := "", ""
+		if len(rl) > 0 {
+			r2 = strings.Join(rl, "\n") + "\n"
+		}
+		if len(il) > 0 {
+			i2 = strings.Join(il, "\n") + "\n"
+		}
+		return r2, i2
+	}
+	// C10, whole approve: routes, then the restore file (scp, chmod, load, mv), then the start-up routing file;
+	// the session dies at c.Cut; a second approve must converge and a further compare report nothing
+	runIptResume := func(c *c05Case) {
+		routesOut, iptOut, spoc, why, ok := devTexts(c)
+		if !ok {
+			return
+		}
+		c.Dev, c.Spoc = "ROUTES\n"+routesOut+"IPTABLES\n"+iptOut, spoc
+		res.Count("stream:ipt-resume")
+		tnames := map[string]bool{}
+		for _, tb := range c.TgtRS {
+			tnames[tb.Name] = true
+		}
+		for _, tb := range c.DevRS {
+			if !tnames[tb.Name] {
+				why += ",device-only-table"
+			}
+		}
+		if why != "" {
+			res.Count("ipt-resume:skipped(outside the class of C05: " + why + ")")
+			return
+		}
+		impl0, cmp0, _ := run.deviceRun(true, routesOut, iptOut, spoc, -1)
+		o := strings.Split(drv.Ask(strings.Join([]string{"oracle", b2s(c.Names), encRoutes(c.DevRoutes), encRS(c.DevRS),
+			strings.Join(c.TgtRoutes, ls), encRS(c.TgtRS), toLine(strings.TrimSuffix(cmp0, "\n"))}, fs)), fs)
+		if impl0.Status != 0 || len(o) != 6 || o[4] != "" || o[5] != "" {
+			res.Count("ipt-resume:skipped(the complete approve is C05's business)")
+			return
+		}
+		fullRoutes, fullIpt := splitDev(fromLine(o[3]) + "\n")
+		needIpt := strings.Contains(cmp0, "iptables differs at")
+		needRt := strings.HasPrefix(cmp0, "ip route ")
+		routeCmds := func(cmds []string) (rc []string, loaded, moved bool) {
+			for _, l := range cmds {
+				switch {
+				case strings.HasPrefix(l, "ip route "):
+					rc = append(rc, l)
+				case l == "/etc/network/packet-filter.new":
+					loaded = true
+				case strings.HasPrefix(l, "mv -f "):
+					moved = true
+				}
+			}
+			return
+		}
+		tgt := strings.Join(c.TgtRoutes, ls)
+		// ---- first approve, cut
+		impl1, _, cmds1 := run.deviceRun2(false, routesOut, iptOut, spoc, -1, c.Cut)
+		res.TracesVsImpl++
+		res.Eval("iptresume\x00"+c.Cut+"\x00"+c.Dev+"\x00"+spoc, needIpt || needRt)
+		rc1, loaded1, moved1 := routeCmds(cmds1)
+		if needIpt && impl1.Status == 0 {
+			res.Disagree("c05 ipt-resume: the session died at "+c.Cut+" but approve reports success", c, impl1.Stderr, "abort expected")
+			return
+		}
+		res.Count(fmt.Sprintf("ipt-resume:cut=%s,loaded=%v,moved=%v", c.Cut, loaded1, moved1))
+		o1 := strings.Split(drv.Ask(strings.Join([]string{"rexec", encRoutes(c.DevRoutes), strings.Join(rc1, ls), tgt}, fs)), fs)
+		if o1[0] != "ok" || len(o1) != 4 {
+			res.Fail(map[string]any{"pred": "c10_linux_route_command_rejected"}, "first approve: a route command fails on the strict kernel table", c)
+			return
+		}
+		routes2 := ""
+		if o1[1] != "" {
+			routes2 = fromLine(o1[1]) + "\n"
+		}
+		ipt2 := iptOut
+		if loaded1 {
+			ipt2 = fullIpt
+		}
+		// ---- second approve, undisturbed
+		impl2, _, cmds2 := run.deviceRun2(false, routes2, ipt2, spoc, -1, "")
+		res.TracesVsImpl++
+		if impl2.Status != 0 || impl2.Panic != "" {
+			first, _, _ := strings.Cut(impl2.Stderr+impl2.Panic, "\n")
+			res.Fail(map[string]any{"pred": "c10_linux_second_approve_aborts"}, "approve after a session cut at "+c.Cut+" aborts: "+first, c)
+			return
+		}
+		rc2, loaded2, moved2 := routeCmds(cmds2)
+		o2 := strings.Split(drv.Ask(strings.Join([]string{"rexec", o1[3], strings.Join(rc2, ls), tgt}, fs)), fs)
+		switch {
+		case o2[0] != "ok" || len(o2) != 4:
+			res.Fail(map[string]any{"pred": "c10_linux_route_command_rejected"}, "second approve after a cut at "+c.Cut+": a route command fails on the strict kernel table", c)
+			return
+		case o2[2] != "1":
+			res.Fail(map[string]any{"pred": "c10_linux_routes_not_converged"}, "second approve after a cut at "+c.Cut+" does not end in the target's routes", c)
+			return
+		}
+		ipt3 := ipt2
+		if loaded2 {
+			ipt3 = fullIpt
+		}
+		if ipt3 != fullIpt {
+			res.Fail(map[string]any{"pred": "c10_linux_iptables_not_converged"}, "second approve after a cut at "+c.Cut+" does not load the target's rule set", c)
+			return
+		}
+		routes3 := ""
+		if o2[1] != "" {
+			routes3 = fromLine(o2[1]) + "\n"
+		}
+		_ = fullRoutes
+		// ---- a further compare reports no change
+		impl3, cmp3, _ := run.deviceRun(true, routes3, ipt3, spoc, -1)
+		res.TracesVsImpl++
+		if impl3.Status != 0 || cmp3 != "" {
+			first, _, _ := strings.Cut(cmp3+impl3.Stderr, "\n")
+			res.Fail(map[string]any{"pred": "c10_linux_compare_after_resume_reports_change"}, "compare after the resumed approve (cut at "+c.Cut+"): "+first, c)
+			return
+		}
+		res.Count("ipt-resume:converged")
+		// ---- the start-up files (what the host loads at boot)
+		if needIpt && !moved1 && !moved2 {
+			res.Fail(map[string]any{"pred": "c10_linux_startup_iptables_file_stale"},
+				"cut at "+c.Cut+": the new rule set is running, the second approve sees no difference and never moves packet-filter.new to /etc/network/packet-filter: a reboot loads the OLD rules", c)
+		}
+		if needRt && impl1.Status != 0 && len(rc2) == 0 {
+			res.Fail(map[string]any{"pred": "c10_linux_startup_routing_file_stale"},
+				"cut at "+c.Cut+": all route commands were executed, the second approve sees no route difference and never writes /etc/network/routing: a reboot brings back the OLD routes", c)
 		}
 	}
 	if ctx.Replay != "" {
@@ -1314,6 +1523,8 @@ func runC05(ctx *Ctx) *Result {
 			runDeviceCompare(&c)
 		case "device-resume":
 			runDeviceResume(&c)
+		case "ipt-resume":
+			runIptResume(&c)
 		default:
 			runCase(&c)
 		}
@@ -1340,6 +1551,73 @@ func runC05(ctx *Ctx) *Result {
 			}
 		}
 		res.Failures = keep
+		return res
+	}
+
+	cuts := []string{"which", "chmod", "echo-after-chmod", "exec", "echo-after-exec", "mv", "echo-after-mv"}
+	genIptResume := func(rng *RNG) *c05Case {
+		c := &c05Case{Abstract: true, Names: rng.Bool(), Stream: "ipt-resume", FailAt: -1}
+		c.DevRoutes, c.TgtRoutes, _ = genRoutes(rng, routeGenOpts{multiHop: rng.Chance(25), max: 5}, res)
+		c.TgtRS = genRS(rng, ruleOpts{})
+		c.DevRS = mutateRS(rng, c.TgtRS, res, false)
+		if rng.Chance(15) {
+			c.DevRS = nil // a fresh host
+		}
+		c.Cut = Pick(rng, cuts)
+		return c
+	}
+	genRouteSteps := func(rng *RNG) *c05Case {
+		c := &c05Case{Abstract: true, Stream: "route-steps"}
+		c.DevRoutes, c.TgtRoutes, c.Noise = genRoutes(rng, routeGenOpts{nest: true, multiHop: rng.Chance(20), dupTarget: rng.Chance(5), max: 6}, res)
+		return c
+	}
+	if c14Mode {
+		res.Rule = "Linux share of C14 (route clause): device and target route sets over destinations that share a network address with different prefix lengths, " +
+			"nested prefixes, the two halves of a net, default route, re-homed specifics; the REAL diffRoutes script (drc -q DEVICE TARGET) is executed line by line " +
+			"(a joined `del \\N add` line is one step) on the strict kernel table of the Lean specification; after every step (a) every destination (address/length) that has a " +
+			"route before and after has one, (b) every address of a small universe around the destinations that is covered by some route before and after is covered; " +
+			"non-trivial = the script is not empty"
+		// fixed witnesses: adding a more specific route next to a kept less specific one, and the reverse
+		for _, w := range [][2][]string{
+			{{"10.1.0.0/16 10.10.1.1"}, {"10.1.0.0/16 10.10.1.1", "10.1.0.0/24 10.10.1.2"}},
+			{{"10.1.0.0/16 10.10.1.1", "10.1.0.0/24 10.10.1.2"}, {"10.1.0.0/16 10.10.1.1"}},
+			{{"10.1.0.0/16 10.10.1.1"}, {"10.1.0.0/17 10.10.1.2", "10.1.128.0/17 10.10.1.2"}},
+			{{"0.0.0.0/0 10.10.1.1", "10.1.0.0 10.10.1.2"}, {"0.0.0.0/0 10.10.1.3", "10.1.0.0/30 10.10.1.2"}},
+		} {
+			c := &c05Case{Abstract: true, Stream: "route-steps"}
+			for _, d := range w[0] {
+				f := strings.Fields(d)
+				ip, plen := splitDst(f[0])
+				c.DevRoutes = append(c.DevRoutes, devRoute{IP: ip, Plen: plen, Hop: f[1]})
+			}
+			for _, d := range w[1] {
+				f := strings.Fields(d)
+				ip, plen := splitDst(f[0])
+				c.TgtRoutes = append(c.TgtRoutes, fmt.Sprintf("ip route add %s/%d via %s", ip, plen, f[1]))
+			}
+			runCase(c)
+		}
+		for i := 0; i < ctx.N(400, 20000); i++ {
+			runCase(genRouteSteps(base.Fork()))
+		}
+		return res
+	}
+	if c10Mode {
+		res.Rule = "Linux share of C10: the REAL approve (drc against the simulated Linux host) is cut — the session dies when route command k arrives " +
+			"(stream device-resume), or at `which iptables-restore` (after the routes, before iptables), at chmod / at the restore file (before it is loaded), " +
+			"behind the load or at mv (loaded, start-up file not yet replaced), behind mv (between the two start-up copies) (stream ipt-resume); the state the host is left in is " +
+			"computed by the Lean specification; a second undisturbed approve must succeed and converge (routes: strict kernel table; iptables: the target's rule set loaded) " +
+			"and a further compare must report nothing; the start-up files are tracked as well. non-trivial = the plan had at least one changing command"
+		for i := 0; i < ctx.N(30, 600); i++ {
+			rng := base.Fork()
+			c := &c05Case{Abstract: true, Stream: "device-resume"}
+			c.DevRoutes, c.TgtRoutes, _ = genRoutes(rng, routeGenOpts{multiHop: rng.Chance(30), dupTarget: rng.Chance(8), max: 7}, res)
+			c.FailAt = rng.Intn(9)
+			runDeviceResume(c)
+		}
+		for i := 0; i < ctx.N(40, 800); i++ {
+			runIptResume(genIptResume(base.Fork()))
+		}
 		return res
 	}
 
@@ -1437,6 +1715,10 @@ func runC05(ctx *Ctx) *Result {
 			res.Count("ipt-mutation:mark-mask")
 		}
 		runCase(c)
+	}
+	// route step safety over nested / same-address destinations (the Linux share of C14)
+	for i := 0; i < ctx.N(120, 5000); i++ {
+		runCase(genRouteSteps(base.Fork()))
 	}
 	// excluded points, at a low rate (each is a listed class)
 	for i := 0; i < ctx.N(60, 1500); i++ {
@@ -1612,6 +1894,9 @@ func runC05(ctx *Ctx) *Result {
 		c.DevRoutes, c.TgtRoutes, _ = genRoutes(rng, routeGenOpts{multiHop: rng.Chance(30), dupTarget: rng.Chance(8), max: 7}, res)
 		c.FailAt = rng.Intn(9)
 		runDeviceResume(c)
+	}
+	for i := 0; i < ctx.N(8, 200); i++ {
+		runIptResume(genIptResume(base.Fork()))
 	}
 	res.Notes = append(res.Notes, fmt.Sprintf("device streams took %.1fs", time.Since(tDev).Seconds()))
 	// normalizeIPTables and parseIPTables through the exports
